@@ -331,6 +331,7 @@ func runC16(c *Ctx) {
 			c02ForcedPlan = nil
 		}
 	}
+	c16EnumRedefined(c)
 	// exhaustive short histories over a small alphabet on the stateful types
 	alpha := []string{"append", "encode", "reset", "decode", "block"}
 	maxLen := 4
@@ -473,6 +474,96 @@ func c16ZeroRowBlockAfterRows(c *Ctx, r *Rng) {
 			if got := rc.Data.(proto.Column).Rows(); got != 0 {
 				R.Violate(Violation{Kind: "oracle", Key: "reuse-decode-differs-from-fresh", What: fmt.Sprintf("target %d (%s) holds %d rows after a block without rows; a fresh target holds 0", j, names[j], got), Case: cs})
 				break
+			}
+		}
+	}
+}
+
+// an enum column kept in use (no Reset) while the server's definition of the enum changes between two encodes (Infer with
+// the same names under other numbers): the logical contents are the names, and every encode must send each row's name
+// under the numbers of the definition in force — for the rows appended before the change and for the rows appended after it
+func c16EnumRedefined(c *Ctx) {
+	R := c.R
+	type def struct {
+		ty    string
+		codes map[string]int
+		w     int
+	}
+	defs := [][2]def{
+		{{"Enum8('a' = 1, 'b' = 2, 'c' = 3)", map[string]int{"a": 1, "b": 2, "c": 3}, 1}, {"Enum8('a' = 3, 'b' = 1, 'c' = 2)", map[string]int{"a": 3, "b": 1, "c": 2}, 1}},
+		{{"Enum8('a' = 1, 'b' = 2, 'c' = 3)", map[string]int{"a": 1, "b": 2, "c": 3}, 1}, {"Enum8('c' = 10, 'a' = 20, 'b' = 30, 'd' = 40)", map[string]int{"a": 20, "b": 30, "c": 10, "d": 40}, 1}},
+		{{"Enum16('a' = 100, 'b' = 200, 'c' = 300)", map[string]int{"a": 100, "b": 200, "c": 300}, 2}, {"Enum16('a' = 300, 'b' = 100, 'c' = 200)", map[string]int{"a": 300, "b": 100, "c": 200}, 2}},
+		{{"Enum8('a' = 1, 'b' = 2, 'c' = 3)", map[string]int{"a": 1, "b": 2, "c": 3}, 1}, {"Enum16('a' = 300, 'b' = 100, 'c' = 200)", map[string]int{"a": 300, "b": 100, "c": 200}, 2}},
+	}
+	check := func(how string, col *proto.ColEnum, d def, want []string, cs map[string]any) bool {
+		data, err := libraryEncode(col, how)
+		if err != nil {
+			R.Violate(Violation{Kind: "oracle", Key: "reuse-encode-panic", What: "encoding an enum column after its definition changed failed: " + err.Error(), Case: cs})
+			return false
+		}
+		if how == "block" {
+			hdr := putUvarint(nil, 1)
+			hdr = putUvarint(hdr, uint64(len(want)))
+			hdr = putStr(hdr, "c")
+			hdr = putStr(hdr, string(col.Type()))
+			hdr = append(hdr, 0)
+			if !bytes.HasPrefix(data, hdr) {
+				R.Violate(Violation{Kind: "oracle", Key: "reuse-block-header", What: "EncodeRawBlock header does not announce the column's current row count / type", Case: cs})
+				return false
+			}
+			data = data[len(hdr):]
+		}
+		var wantRaw []byte
+		for _, n := range want {
+			v := d.codes[n]
+			wantRaw = append(wantRaw, byte(v))
+			if d.w == 2 {
+				wantRaw = append(wantRaw, byte(v>>8))
+			}
+		}
+		R.Compared()
+		if !bytes.Equal(data, wantRaw) {
+			cs["encoded"], cs["want"] = hx(data), hx(wantRaw)
+			R.Violate(Violation{Kind: "oracle", Key: "reuse-encode-wrong-values", What: fmt.Sprintf("enum column holding %v under %s encoded (%s) as %s, want %s", want, d.ty, how, hx(data), hx(wantRaw)), Case: cs})
+			return false
+		}
+		return true
+	}
+	for _, pair := range defs {
+		for _, how := range []string{"buffer", "write", "block"} {
+			for _, prepFirst := range []bool{true, false} {
+				for _, appendAfter := range []bool{false, true} {
+					cs := map[string]any{"first": pair[0].ty, "second": pair[1].ty, "encode": how, "encoded_under_first": prepFirst, "append_after_change": appendAfter}
+					R.Case(fmt.Sprintf("enum-redefined|%s|%s|%s|%v|%v", pair[0].ty, pair[1].ty, how, prepFirst, appendAfter), true)
+					R.Count("shape:enum-redefined")
+					col := new(proto.ColEnum)
+					if err := col.Infer(proto.ColumnType(pair[0].ty)); err != nil {
+						R.Note("enum infer: %v", err)
+						continue
+					}
+					want := []string{"a", "b", "c", "a"}
+					for _, v := range want {
+						col.Append(v)
+					}
+					if prepFirst && !check(how, col, pair[0], want, cs) {
+						continue
+					}
+					if err := col.Infer(proto.ColumnType(pair[1].ty)); err != nil {
+						R.Violate(Violation{Kind: "oracle", Key: "reuse-infer-error", What: "Infer of the redefined enum failed: " + err.Error(), Case: cs})
+						continue
+					}
+					if appendAfter {
+						for _, v := range []string{"c", "b"} {
+							col.Append(v)
+							want = append(want, v)
+						}
+					}
+					if !check(how, col, pair[1], want, cs) {
+						continue
+					}
+					// and once more: encoding again re-sends the same rows
+					check(how, col, pair[1], want, cs)
+				}
 			}
 		}
 	}
